@@ -137,7 +137,8 @@ def _model_text(ob):
 
 
 def _replay(E, con, fi, ob, seed):
-    """replay the counterexample on the real function; fall back to further models, then to a native search"""
+    """replay the counterexample on the real function: concretise the model's state as the function's input, run the
+    real code, evaluate the contract's clauses on what it did; then further models; then a native search"""
     import z3
     from . import replay as R
     from . import verify as V
@@ -145,32 +146,41 @@ def _replay(E, con, fi, ob, seed):
 
     kind = _clause_kind(ob.name)
     label = _label_of(ob.name)
-    if ob.name.split("/")[0] != V.short(con.key):
-        # obligation at a call site (callee precondition): replay = the caller's input that reaches the call
-        kind = "callsite"
+    own = ob.name.split("/")[0] == V.short(con.key)
     attempts = []
     if con.replay is not None:
         try:
             return con.replay(E, con, fi, ob, seed)
         except Exception as ex:  # noqa
             attempts.append({"custom_replay_error": "%s: %s" % (type(ex).__name__, ex)})
-    if kind not in ("ensures", "raises", "result-shape"):
-        return {"confirmed": False, "why": "no generic replay for obligation kind %s" % kind, "attempts": attempts}
+    want = None
+    if own and kind == "ensures":
+        want = [label]
     s = z3.Solver()
     s.set("timeout", 5000)
     s.add(*ob.pc)
     s.add(z3.Not(ob.goal))
+    models = []
+    if ob.model is not None:
+        models.append(ob.model)
+    ctx0 = Ctx(E, [], "replay")
+    bound = V.symbolic_params(ctx0, con, fi)
+    heap0 = dict(ctx0.heap0)
     for attempt in range(6):
-        if s.check() != z3.sat:
-            break
-        m = s.model()
+        if models:
+            m = models.pop(0)
+        else:
+            if s.check() != z3.sat:
+                break
+            m = s.model()
+        # the state of the model: pre-state arrays where the model speaks about them
+        heap = dict(heap0)
+        for d in m.decls():
+            n = d.name()
+            if n.startswith("H_") and "!" not in n:
+                heap.setdefault(n[2:], z3.Const(n, d.range()) if d.arity() == 0 else None)
         try:
-            ctx0 = Ctx(E, ob.meta.get("decisions", []), "replay")
-            from .interp import Interp
-
-            bound = V.symbolic_params(ctx0, con, fi)
-            heap0 = dict(ctx0.heap0)
-            info = R.check_clause_concretely(E, con, fi, bound, m, heap0, lambda: Ctx(E, [], "replay-eval"), kind, label)
+            info = R.run_and_check(E, con, fi, bound, m, heap, want=want)
         except R.NotConcretisable as nc:
             attempts.append({"not_concretisable": str(nc)})
             break
@@ -178,9 +188,10 @@ def _replay(E, con, fi, ob, seed):
             attempts.append({"replay_error": "%s: %s" % (type(ex).__name__, ex), "trace": traceback.format_exc()[-800:]})
             break
         attempts.append(info)
-        if info.get("violated") is True:
-            return {"confirmed": True, "input": info["inputs"], "observed": info["observed"], "attempts": len(attempts)}
-        # block this model's parameter values and try another one
+        if info.get("violated"):
+            return {"confirmed": True, "input": info["inputs"], "observed": info["observed"], "violated_clauses": info["violated"],
+                    "note": None if (own and kind in ("ensures", "raises", "result-shape")) else "obligation %s is internal to the proof (%s); the real function, run on the model's state, breaks the listed clauses of its contract" % (ob.name, kind),
+                    "attempts": len(attempts)}
         blockers = []
         for name, sv in bound.items():
             if hasattr(sv, "t"):
